@@ -61,6 +61,37 @@ func c07Recipe(recipe string) []byte {
 	case "item": // format code a, b payload bytes of 0x01 (3 length bytes)
 		body := append([]byte{byte(a)<<2 | 3, byte(b >> 16), byte(b >> 8), byte(b)}, bytes.Repeat([]byte{0x01}, b)...)
 		return wrapMsg(body)
+	case "pitem": // format code a, payload of (b>>3) bytes drawn from pattern b&7 (3 length bytes)
+		n, pat := b>>3, b&7
+		pay := make([]byte, n)
+		x := uint32(12345)
+		for i := range pay {
+			switch pat {
+			case 0:
+				pay[i] = 0x00
+			case 1:
+				pay[i] = 0x7F
+			case 2:
+				pay[i] = 0x80
+			case 3:
+				pay[i] = 0xFF
+			case 4:
+				pay[i] = []byte{0x41, 0xC1}[i&1]
+			case 5:
+				x = x*1664525 + 1013904223
+				pay[i] = byte(x >> 24)
+			case 6:
+				pay[i] = []byte{'"', '\\', '\n', 0xE2, 0x80, 0xA8, 0x1B, 'a'}[i&7]
+			default:
+				if i >= n/2 {
+					pay[i] = 0x9C
+				} else {
+					pay[i] = 'a'
+				}
+			}
+		}
+		body := append([]byte{byte(a)<<2 | 3, byte(n >> 16), byte(n >> 8), byte(n)}, pay...)
+		return wrapMsg(body)
 	case "greedy": // a nested list headers with b length bytes, each declaring as many children as the guard "2 bytes per child" lets through
 		total := a * (1 + b)
 		var body []byte
@@ -214,6 +245,25 @@ func c07Jobs(c *ctx) (small []iso.Job, large []iso.Job) {
 			large = append(large, iso.Job{Input: c07Recipe(r), Family: "long-item", Meta: r})
 		}
 	}
+	// long items of every format whose payload is not the friendly 0x01: all-zero, 0x7F, 0x80, 0xFF, alternating 7-bit/8-bit,
+	// pseudo-random, quote/backslash/line-break/UTF-8 runs, 8-bit second half (per-byte work on refusals, escapes, conversions)
+	psizes := []int{4096, 65536}
+	if c.thorough {
+		psizes = append(psizes, 1<<20)
+	}
+	for _, code := range []int{0o10, 0o11, 0o20, 0o31, 0o51, 0o32, 0o52, 0o34, 0o54, 0o30, 0o50, 0o44, 0o40} {
+		for _, n := range psizes {
+			for pat := 0; pat < 8; pat++ {
+				r := fmt.Sprintf("pitem %d %d", code, n<<3|pat)
+				j := iso.Job{Input: c07Recipe(r), Family: "long-item-payload-patterns", Meta: r}
+				if n > 32<<10 {
+					large = append(large, j)
+				} else {
+					small = append(small, j)
+				}
+			}
+		}
+	}
 	// wide lists of many small items of every format (per-item costs that grow with what follows the item)
 	for _, code := range []int{0o20, 0o10, 0o11, 0o31, 0o51, 0o32, 0o52, 0o34, 0o54, 0o30, 0o50, 0o44, 0o40} {
 		r := fmt.Sprintf("smallitems %d %d", c.pick(20000, 200000), code)
@@ -227,7 +277,7 @@ func c07Jobs(c *ctx) (small []iso.Job, large []iso.Job) {
 }
 
 func runC07(c *ctx) {
-	c.Rule = "inputs run in child worker processes (ulimit -v 4 GiB, watchdog); oracle: no panic escapes hsms.Parse, the worker does not abort, the decoder's item-step counter (hook H3) stays within len(input)+2, TotalAlloc delta <= 1 MiB + 2048*len(input). Families: every format x 1/2/3 length bytes x declared length {0,1,255,256,65535,65536,2^24-1} x bytes present {0,1,declared-1,declared} at list depth {0,1,2,7,64} inside over-declaring lists; long legitimate items; lists of many small items of every format; generated legitimate trees up to ~1 MB; nested lists each declaring the largest count the remaining bytes allow; closed/unclosed one-element list chains; every single-point fault of seed encodings (the C03 enumerator); random bytes behind a correct length prefix; the deep-chain probe. non-trivial = input declares a length larger than the bytes that follow, or is >= 4 KiB; distinct by hash"
+	c.Rule = "inputs run in child worker processes (ulimit -v 4 GiB, watchdog); oracle: no panic escapes hsms.Parse, the worker does not abort, the decoder's item-step counter (hook H3) stays within len(input)+2, TotalAlloc delta <= 1 MiB + 2048*len(input). Families: every format x 1/2/3 length bytes x declared length {0,1,255,256,65535,65536,2^24-1} x bytes present {0,1,declared-1,declared} at list depth {0,1,2,7,64} inside over-declaring lists; long legitimate items; long items of every format with hostile payload patterns (0x00, 0x7F, 0x80, 0xFF, alternating 7/8-bit, pseudo-random, quote/backslash/line-break/UTF-8 runs, 8-bit second half); lists of many small items of every format; generated legitimate trees up to ~1 MB; nested lists each declaring the largest count the remaining bytes allow; closed/unclosed one-element list chains; every single-point fault of seed encodings (the C03 enumerator); random bytes behind a correct length prefix; the deep-chain probe. non-trivial = input declares a length larger than the bytes that follow, or is >= 4 KiB; distinct by hash"
 	c.Assume = []string{"runtime.MemStats.TotalAlloc measures the memory allocated during one call in a single-goroutine worker", "the bound's constants (1 MiB + 2048 B/byte) are ~4x the most expensive legitimate construct measured on this tree"}
 
 	small, large := c07Jobs(c)
@@ -371,7 +421,7 @@ func runC07(c *ctx) {
 			c.Sample(map[string]interface{}{"family": j.Family, "len": len(j.Input), "input": hex.EncodeToString(clipB(j.Input))})
 		}
 	}
-	c.Required = []string{"hook-H3-reached", "family/declared-vs-present", "family/single-point-fault", "family/long-item", "family/many-small-items", "family/generated-tree", "family/closed-chain", "family/nest-with-leaf-per-level", "family/nest-around-a-large-item", "family/greedy-nested-lists", "family/random", "accepted", "rejected"}
+	c.Required = []string{"hook-H3-reached", "family/declared-vs-present", "family/single-point-fault", "family/long-item", "family/long-item-payload-patterns", "family/many-small-items", "family/generated-tree", "family/closed-chain", "family/nest-with-leaf-per-level", "family/nest-around-a-large-item", "family/greedy-nested-lists", "family/random", "accepted", "rejected"}
 }
 
 func firstLines(s string, n int) string {
